@@ -2,6 +2,7 @@ package main
 
 import (
 	"fmt"
+	"go/constant"
 	"go/token"
 	"go/types"
 
@@ -647,7 +648,10 @@ func isConstInt(v ssa.Value, n int64) bool {
 	if !ok || k.Value == nil {
 		return false
 	}
-	return k.Int64() == n && (k.Value.Kind().String() == "Int")
+	if k.Value.Kind() != constant.Int {
+		return false
+	}
+	return k.Int64() == n
 }
 
 func isLenOfField(v ssa.Value, f *types.Var) bool {
